@@ -295,10 +295,35 @@ def panic_location(out):
     return None
 
 
+def crate_src(rel):
+    """Directory of one of /verif's own crates (drivers/*, kani/*). Their manifests and #[path] attributes name /repo;
+    when OAL_REPO points elsewhere (development: several trees checked side by side) a copy with the paths rewritten
+    is made under the cache. Registered commands run with the default and use the crate in place."""
+    src = os.path.join(VERIF, rel)
+    if REPO == "/repo":
+        return src
+    import shutil as _sh
+    dst = os.path.join(CACHE, "src", rel)
+    if os.path.exists(dst):
+        _sh.rmtree(dst)
+    _sh.copytree(src, dst, ignore=_sh.ignore_patterns("target", "Cargo.lock"))
+    for root, _, files in os.walk(dst):
+        for fn in files:
+            if fn.endswith((".rs", ".toml")):
+                fp = os.path.join(root, fn)
+                with open(fp) as f:
+                    t = f.read()
+                t2 = t.replace('"/repo/', '"%s/' % REPO)
+                if t2 != t:
+                    with open(fp, "w") as f:
+                        f.write(t2)
+    return dst
+
+
 def build_wasmdrv():
     """Native driver around /repo's playground entry point oal_wasm::compile."""
     import shutil as _sh
-    d = os.path.join(VERIF, "drivers", "wasmdrv")
+    d = crate_src("drivers/wasmdrv")
     lock = os.path.join(REPO, "Cargo.lock")
     if os.path.exists(lock):
         _sh.copyfile(lock, os.path.join(d, "Cargo.lock"))
